@@ -88,6 +88,16 @@ def query(ctx, g, gd, a, b, C, gkey, both=True):
     kw = {"conditions": (None if not Cv and k % 3 == 0 else form(sorted(Cv, key=str)))}
     if k % 5 == 0:
         kw["cutoff"] = len(gd["nodes"]) + 1
+    if k % 6 == 1 and "@" not in "".join(gd["nodes"]):
+        # the caller has used the graph before: it asked for descendant / ancestor sets of single nodes and edited the
+        # sets it got (its own objects) - the next answer must not depend on that
+        with kernel.quiet():
+            for m_ in sorted(C)[:2] + [a]:
+                d_ = g.descendants_inclusive(Variable(m_))
+                d_.discard(Variable(m_))
+                a_ = g.ancestors_inclusive({Variable(m_)})
+                a_.clear()
+        kernel.count("C20:queries-after-the-caller-edited-returned-sets")
     try:
         r1 = are_sigma_separated(g, Variable(a), Variable(b), **kw)
     except Exception as e:  # noqa: BLE001
